@@ -203,6 +203,17 @@ ODD_ARGV = [[], ["-O0"], ["-O3"], ["-O0", "-fcollapse-transition-ranges"], ["-fn
 
 
 @st.composite
+def odd_argv(draw):
+    """One preset, or (1 in 3) the union of two: an error-rendering flag only matters together with the feature whose error is rendered."""
+    a = list(draw(st.sampled_from(ODD_ARGV)))
+    if draw(st.integers(0, 2)) == 0:
+        for x in draw(st.sampled_from(ODD_ARGV)):
+            if x not in a:
+                a.append(x)
+    return a
+
+
+@st.composite
 def wild_source(draw):
     decls = draw(decls_text())
     stmts = draw(st.lists(stmt_text(draw(st.integers(0, 2))), min_size=1, max_size=5))
@@ -212,7 +223,7 @@ def wild_source(draw):
     k = draw(st.integers(0, len(decls)))
     sep = draw(st.sampled_from(["\n", "\n", "\n", "\r\n", "\n\x0c", " "]))
     src = sep.join(decls[:k] + [parser] + decls[k:]) + "\n"
-    return src, draw(st.sampled_from(ODD_ARGV))
+    return src, draw(odd_argv())
 
 
 @st.composite
@@ -221,7 +232,7 @@ def typed_source(draw):
     cfg = gen.GenConfig(max_depth=3, max_stmts=6, allow_yield=(mode == "yield"), allow_end=(mode == "eof"), valid_bias=0.6, n_raws=(0, 1),
                         kinds={"yield": 2 if mode == "yield" else 0, "finish": 2}, wide_bytes=0.3)
     prog = draw(gen.program(cfg))
-    return prog.source(), list(prog.argv) + draw(st.sampled_from(ODD_ARGV))
+    return prog.source(), list(prog.argv) + draw(odd_argv())
 
 
 @st.composite
@@ -343,6 +354,8 @@ FIXED_SOURCES = [
     ('macro m() { loop { loop { loop { loop { loop { loop { loop { loop { loop { loop { loop { "a"; m(); } } } } } } } } } } } }\nparser { m(); }', []),
     ('out enum{EA,EB} e0;\nparser { "a"; e0 = true; }', []), ('out enum{EA,EB} e0;\nparser { "a"; if e0 == false { "b"; } }', []),
     ('out int{unsigned, size 1} n0 = 100;\nout str[8] s0;\nparser { loop { "a"; if n0 == 1 { break; } } try { s0 += [n0]; "b"; } catch { } "x"; }', ["-O3"]),
+    ('parser { optional { end; "a"; } end; }', ["-feof-support", "-fcodepoints-in-errors"]),
+    ('parser { ' + ' '.join('"abcdefghijklmnopqrst";' for i in range(64)) + ' }', ["-O2"]),
     ('parser { ""; }', []), ('parser { "6"b; }', []), ('parser { /a{3,2}/; }', []), ('parser { "é"; }', []), ('parser { /[c-a]/; }', []),
 ]
 
